@@ -455,7 +455,7 @@ pub fn h_c14_pretty() {
 // ---------------------------------------------------------------------------
 // C16
 
-fn small_tree(xot: &mut Xot) -> (Node, Node, Vec<NameId>) {
+fn small_tree(xot: &mut Xot) -> (Node, Node, Vec<NameId>, Node) {
     let i = ids(xot);
     let (na, nb) = (xot.add_name("a"), xot.add_name_ns("b", i.a));
     let nx = xot.add_name("x");
@@ -483,12 +483,14 @@ fn small_tree(xot: &mut Xot) -> (Node, Node, Vec<NameId>) {
     xot.append_processing_instruction(a, pi, Some("d")).unwrap();
     let c = xot.new_element(na);
     xot.append(b, c).unwrap();
-    (doc, a, vec![na, nb])
+    (doc, a, vec![na, nb], b0)
 }
 
 pub fn h_c16_tokens() {
     let mut xot = Xot::new();
-    let (doc, a, names) = small_tree(&mut xot);
+    // a name that is not used in the tree, registered first (smallest id)
+    let nz = xot.add_name("zz");
+    let (doc, a, names, _b0) = small_tree(&mut xot);
     let node = if sym::choose("node", 2) == 0 { doc } else { a };
     let cdata = match sym::choose("cdata", 3) {
         0 => vec![],
@@ -517,7 +519,13 @@ pub fn h_c16_tokens() {
         sym::check("write-emits-the-same-bytes", String::from_utf8(buf).ok().as_ref() == Some(w));
     }
     // pretty tokens against the pretty string
-    let suppress: Vec<NameId> = if sym::choose("suppress", 2) == 1 { vec![names[1]] } else { vec![] };
+    // (the two-name list is in descending id order)
+    let nsup = if cdata.is_empty() && !gt { 3 } else { 2 };
+    let suppress: Vec<NameId> = match sym::choose("suppress", nsup) {
+        0 => vec![],
+        1 => vec![names[1]],
+        _ => vec![names[0], nz],
+    };
     let wantp = xot.serialize_xml_string(
         Parameters { indentation: Some(Indentation { suppress: suppress.clone() }), cdata_section_elements: cdata.clone(), unescaped_gt: gt, ..Default::default() },
         node,
@@ -542,8 +550,9 @@ pub fn h_c16_tokens() {
 
 pub fn h_c16_outputs() {
     let mut xot = Xot::new();
-    let (doc, a, _names) = small_tree(&mut xot);
-    let node = if sym::choose("node", 2) == 0 { doc } else { a };
+    let (doc, a, _names, b0) = small_tree(&mut xot);
+    // the document, its root, or an inner element that re-declares a namespace its ancestor binds to another prefix
+    let node = [doc, a, b0][sym::choose("node", 3)];
     // expected event list from the read-back
     #[derive(PartialEq, Debug)]
     enum Ev {
